@@ -1,4 +1,5 @@
 import Texel.Proofs.Chain
+import Texel.Proofs.Vertices
 import Texel.Model.RingF
 /-! # C18 — moderately collapsing polygons are reduced without inventing geometry   (partial)
 
@@ -6,7 +7,8 @@ import Texel.Model.RingF
 conclusions (a) every output edge is a routed run, (b) holes inside or on their shell, (c) signed area preserved are decided
 per generated case by the exact oracle `oracleC18` on the implementation's output, for cases whose chains — computed by the
 proved-correct routing of the model — have `maxVisits ≤ 2`. Proved here: the chains exist for every in-grid polygon, their
-vertices are input-vertex pixels, and spike removal only removes vertices (never invents one). -/
+vertices are input-vertex pixels, spike removal only removes vertices, and — `C18_no_vertex_invented`, for every polygon, not only
+moderately collapsing ones — every vertex of every returned ring is a pixel some edge of the polygon is routed through on that level. -/
 namespace Texel.C18
 open Texel
 
@@ -40,6 +42,15 @@ theorem C18_boundary_exists (g : Grid) (hres : 0 < g.res) (rings : List (List Pt
 /-- spike removal only removes: the de-duplicated ring's vertices are vertices of the routed chain -/
 theorem C18_dedup_subset (ring out : Array P) (h : kmpDeduplicateF ring = .ok out) : ∀ v ∈ out, v ∈ ring :=
   kmpDeduplicateF_mem ring out h
+
+/-- **no vertex is invented**: every vertex of every ring returned for level `l` is a routed pixel of some edge of some ring of the
+input polygon (whatever joining, spike removal, splitting, cancellation, hole matching, reversal and the keep option did) -/
+theorem C18_no_vertex_invented (g : Grid) (hot : Nat → Quad → Bool) (cfg : Config) (l : Nat) (rings : List (List Pt)) (polys : Array Poly)
+    (h : processLevel g hot cfg l rings = .ok (some polys)) :
+    ∀ pg ∈ polys, ∀ r ∈ pg, ∀ v ∈ r, ∃ ring ∈ rings, ∃ cw, ∃ s ∈ ringEdges (normaliseRing ring cw), ∃ q ∈ snapLevel lineIntersects g hot s l, v = q.toP := by
+  intro pg hpg r hr v hv
+  obtain ⟨ring, hring, cw, s, hs, q, hq, hvq⟩ := processLevel_V g hot cfg l rings polys h pg (by simpa using hpg) r hr v hv
+  exact ⟨ring, hring, cw, s, hs, q, hq, hvq⟩
 
 example : maxVisits [[(0, 0), (1, 0), (0, 0), (2, 2)], [(5, 5)]] = 2 := by decide
 
